@@ -36,7 +36,8 @@ def gen_value(tv, rng, boundary=False, text_mode="auto"):
     if t == MsgType.MVT_F32:
         return gen_f32(rng, boundary)
     if t == MsgType.MVT_F64:
-        return rng.choice([0.0, -0.0, 1e300, -1e-300]) if boundary else rng.uniform(-1e9, 1e9)
+        # (1e-05, 5e-324, 1e+22: doubles whose repr has an exponent and no decimal point)
+        return rng.choice([0.0, -0.0, 1e300, -1e-300, 1e-05, 3e-07, 5e-324, 1e+22, -2e-09]) if boundary else rng.uniform(-1e9, 1e9)
     if t == MsgType.MVT_LLVector3:
         return Vector3(*[gen_f32(rng, boundary) for _ in range(3)])
     if t == MsgType.MVT_LLVector3d:
